@@ -9,8 +9,8 @@ const STEPS: usize = 3;
 const STEPS: usize = 5;
 
 enum RH {
-    Std(Result<Tok, Tok>),
-    Dip(DiplomatResult<Tok, Tok>),
+    Std(Result<Tok, TokE>),
+    Dip(DiplomatResult<Tok, TokE>),
     Gone,
 }
 
@@ -44,8 +44,8 @@ fn res_step(h: RH, op: u8, ok: bool) -> RH {
                 }
                 Err(t) => {
                     assert!(!ok);
-                    assert!(live(t.id));
-                    assert!(*t.cell == t.id as u8);
+                    assert!(live(t.inner.id));
+                    assert!(*t.inner.cell == t.inner.id as u8 && t.tag == 0xE0E0_E0E0_E0E0_E0E0);
                 }
             }
             RH::Dip(d)
@@ -62,7 +62,7 @@ fn res_step(h: RH, op: u8, ok: bool) -> RH {
 #[kani::unwind(10)]
 fn result_tok_sequence() {
     let ok: bool = kani::any();
-    let mut h = RH::Std(if ok { Ok(Tok::new()) } else { Err(Tok::new()) });
+    let mut h = RH::Std(if ok { Ok(Tok::new()) } else { Err(TokE::new()) });
     let mut i = 0;
     while i < STEPS {
         let op: u8 = kani::any();
@@ -82,12 +82,13 @@ fn result_tok_sequence() {
 #[kani::unwind(10)]
 fn result_into_std_once() {
     let ok: bool = kani::any();
-    let d: DiplomatResult<Tok, Tok> = if ok { Ok(Tok::new()) } else { Err(Tok::new()) }.into();
+    let d: DiplomatResult<Tok, TokE> = if ok { Ok(Tok::new()) } else { Err(TokE::new()) }.into();
     assert!(d.is_ok == ok);
-    let r: Result<Tok, Tok> = d.into();
+    let r: Result<Tok, TokE> = d.into();
     assert!(r.is_ok() == ok);
     match &r {
-        Ok(t) | Err(t) => assert!(live(t.id)),
+        Ok(t) => assert!(live(t.id)),
+        Err(t) => assert!(live(t.inner.id)),
     }
     drop(r);
     assert_each_dropped_once();
@@ -99,7 +100,7 @@ fn result_into_std_once() {
 #[kani::unwind(10)]
 fn result_drop_once() {
     let ok: bool = kani::any();
-    let d: DiplomatResult<Tok, Tok> = if ok { Ok(Tok::new()) } else { Err(Tok::new()) }.into();
+    let d: DiplomatResult<Tok, TokE> = if ok { Ok(Tok::new()) } else { Err(TokE::new()) }.into();
     drop(d);
     assert_each_dropped_once();
 }
@@ -108,17 +109,17 @@ fn result_drop_once() {
 #[kani::unwind(10)]
 fn result_clone_once() {
     let ok: bool = kani::any();
-    let d: DiplomatResult<Tok, Tok> = if ok { Ok(Tok::new()) } else { Err(Tok::new()) }.into();
+    let d: DiplomatResult<Tok, TokE> = if ok { Ok(Tok::new()) } else { Err(TokE::new()) }.into();
     let c = d.clone();
     assert!(c.is_ok == ok);
     let first: bool = kani::any();
     if first {
         drop(d);
-        let r: Result<Tok, Tok> = c.into();
+        let r: Result<Tok, TokE> = c.into();
         drop(r);
     } else {
         drop(c);
-        let r: Result<Tok, Tok> = d.into();
+        let r: Result<Tok, TokE> = d.into();
         drop(r);
     }
     assert_each_dropped_once();
